@@ -92,7 +92,7 @@ def main(path):
     ck = core.Check(pid if pid[0] == "C" else "C00", "quick")
     extra = ""
     if module == "JBinner":
-        extra = "CONSTANTS Slots = {1, 2, 3} Items = {1, 2, 3, 100} MaxBins = 12\n"
+        extra = "CONSTANTS Slots = {1, 2, 3} Items = {1, 2, 3, 100, 101} MaxBins = 12\n"
     fails = ck.judge(module, [fresh], active, what="replay", extra_consts=extra)
     import shutil
     shutil.rmtree(ck.scratch, ignore_errors=True)
